@@ -418,11 +418,11 @@ func shaHex(s string) string {
 }
 
 func p2pkSecret(pub string) string {
-	return fmt.Sprintf(`["P2PK",{"nonce":"%s","data":"%s","tags":[]}]`, shaHex("nonce"+pub)[:32], pub)
+	return fmt.Sprintf(`["P2PK",{"nonce":"%s","data":"%s","tags":[]}]`, shaHex("nonce" + pub)[:32], pub)
 }
 
 func htlcSecret(hash string) string {
-	return fmt.Sprintf(`["HTLC",{"nonce":"%s","data":"%s","tags":[]}]`, shaHex("nonce"+hash)[:32], hash)
+	return fmt.Sprintf(`["HTLC",{"nonce":"%s","data":"%s","tags":[]}]`, shaHex("nonce" + hash)[:32], hash)
 }
 
 func c20Probe(limits bool) func(w *mintops.W) {
